@@ -229,7 +229,17 @@ func (sc *C03Scenario) Execute(t *testing.T) *core.Outcome {
 				typ(i).Prep(w, f, -1)
 			}
 		}
-		mat := state.NewMaterializer()
+		// (its reset callback re-enters the materializer, as a callback that logs progress would)
+		var mat *state.Materializer
+		mat = state.NewMaterializer(state.WithOnReset(func() {
+			if !simrt.Dying() {
+				mat.LastOffset()
+			}
+		}), state.WithOnSnapshot(func(bool) {
+			if !simrt.Dying() {
+				mat.LastOffset()
+			}
+		}))
 		coll := state.NewTypedCollection[c03Entity](state.NewMemoryStore[c03Entity]())
 		state.RegisterCollection(mat, coll)
 		var stored []*eventbus.StoredEvent
@@ -240,6 +250,10 @@ func (sc *C03Scenario) Execute(t *testing.T) *core.Outcome {
 		}
 		// upcaster names: the persisted names of the scenario's three types (so that replays really walk
 		// chains while other tasks register and clear upcasters), and one name nothing is stored under
+		for i, ctl := range []*state.ControlMessage{state.Reset(""), state.SnapshotStart("o"), state.SnapshotEnd("o")} {
+			data, _ := json.Marshal(ctl)
+			stored = append(stored, &eventbus.StoredEvent{Offset: eventbus.Offset(fmt.Sprintf("%020d", 5+i)), Type: "state.ControlMessage", Data: data, Timestamp: time.Unix(int64(5+i), 0)})
+		}
 		upName := func(n int) string {
 			if n%4 < 3 {
 				return typ(n % 4).PersistName
@@ -307,7 +321,7 @@ func (sc *C03Scenario) Execute(t *testing.T) *core.Outcome {
 			case "clear-upcasts-type":
 				w.Bus.ClearUpcastsForType(upName(op.N))
 			case "mat-apply":
-				mat.Apply(stored[op.N%len(stored)])
+				mat.Apply(stored[(op.N+4*op.Fn)%len(stored)])
 			case "mat-get":
 				coll.Get(fmt.Sprintf("k%d", op.N))
 			case "mat-all":
